@@ -8,6 +8,8 @@ package query
 //verif:harness VerifC02SingleColumn mode=bv tier=quick split=2
 //verif:harness VerifC02LtsvJsonRoundTrip mode=bv tier=quick split=10
 //verif:setup VerifC02Setup2
+//verif:setup VerifC02Setup3
+//verif:harness VerifC02ManyRecords mode=bv tier=quick
 //verif:harness VerifC02RetriedCommit mode=bv tier=quick split=4
 
 import (
@@ -170,8 +172,8 @@ func VerifC02SingleColumn() {
 var verifC02Retry1, verifC02Retry2, verifC02RetrySelA, verifC02RetrySelL []parser.Statement
 
 func VerifC02Setup2() {
-	verifC02Retry1 = verifParse("update a set v = 'b'; update l set v = @c; commit;")
-	verifC02Retry2 = verifParse("update l set v = 'ok'; commit;")
+	verifC02Retry1 = verifParse("update a set v = 'bbbb'; update l set v = @c; commit;")
+	verifC02Retry2 = verifParse("update a set v = 'b'; update l set v = 'ok'; commit;")
 	verifC02RetrySelA = verifParse("select id, v from a;")
 	verifC02RetrySelL = verifParse("select k, v from l;")
 }
@@ -190,19 +192,19 @@ func VerifC02RetriedCommit() {
 	proc := NewProcessor(tx)
 	verifVar(proc.ReferenceScope, "c", c)
 	_, err := proc.Execute(verifCtx(), verifC02Retry1)
-	want := tc
+	want, wantA := tc, "id,v\n1,bbbb\n"
 	if err != nil {
 		verifReach("refused")
 		_, err = proc.Execute(verifCtx(), verifC02Retry2)
 		verifAssert("the repaired transaction commits", err == nil)
-		want, nc = "ok", false
+		want, nc, wantA = "ok", false, "id,v\n1,b\n" // the retried COMMIT writes a shorter table
 	}
 	_ = proc.AutoRollback()
 	_ = proc.ReleaseResourcesWithErrors()
 	if err != nil {
 		return
 	}
-	verifAssert("the CSV table is written whole", verifFileRead("a.csv") == "id,v\n1,b\n")
+	verifAssert("the CSV table is written whole", verifFileRead("a.csv") == wantA)
 	tx2 := verifNewTx()
 	tx2.Flags.Quiet = true
 	proc2 := NewProcessor(tx2)
@@ -225,6 +227,54 @@ func VerifC02RetriedCommit() {
 		}
 	}
 	_ = proc2.ReleaseResourcesWithErrors()
+	verifObserveBool("retried", want == "ok")
+	verifReach("end")
+}
+
+var verifC02Many []parser.Statement
+
+func VerifC02Setup3() {
+	verifC02Many = verifParse("select n, c from `m.csv`;")
+}
+
+// A table of 299..302 records (the loader re-sizes its record buffer at the 301st): every record is
+// read back, in order, with its own cells; the first cell is a symbolic byte.
+func VerifC02ManyRecords() {
+	n := 299 + verifChoice("records", 4)
+	c := verifByte("c")
+	verifAssume(verifOr(verifOr(c == 'p', c == 'q'), c == ' '))
+	b := []byte("n,c\n")
+	for i := 0; i < n; i++ {
+		b = append(b, byte('0'+i/100), byte('0'+i/10%10), byte('0'+i%10), ',')
+		if i == 0 {
+			b = append(b, c)
+		} else {
+			b = append(b, 'x')
+		}
+		b = append(b, '\n')
+	}
+	verifFileWrite("m.csv", string(b))
+	tx := verifNewTx()
+	tx.Flags.Quiet = true
+	proc := NewProcessor(tx)
+	_, err := proc.Execute(ContextForStoringResults(verifCtx()), verifC02Many)
+	verifAssert("the table loads", err == nil && len(tx.SelectedViews) == 1)
+	if err != nil || len(tx.SelectedViews) != 1 {
+		return
+	}
+	v := tx.SelectedViews[0]
+	verifAssert("every record is read back", v.RecordLen() == n)
+	for i := 0; i < v.RecordLen() && i < n; i++ {
+		s, ok := v.RecordSet[i][0][0].(*value.String)
+		want := string([]byte{byte('0' + i/100), byte('0' + i/10%10), byte('0' + i%10)})
+		verifAssert("records keep their order and cells", ok && s.Raw() == want)
+	}
+	if v.RecordLen() > 0 {
+		s, ok := v.RecordSet[0][1][0].(*value.String)
+		verifAssert("the symbolic cell reads back", ok && s.Raw() == string([]byte{c}))
+	}
+	_ = proc.ReleaseResourcesWithErrors()
+	verifObserve("records", int64(v.RecordLen()))
 	verifReach("end")
 }
 
